@@ -90,7 +90,11 @@ def base_d():
          "TreeNode": {"type": "object", "properties": {"v": {"type": "integer"}, "children": {"type": "array", "items": ref("TreeNode")}}},
          "Folder": {"type": "object", "properties": {"name": {"type": "string"}, "entries": {"type": "array", "items": ref("Entry")}}},
          "Entry": {"type": "object", "properties": {"parent": ref("Folder"), "size": {"type": "integer"}}},
-         "Shelf": {"type": "object", "properties": {"top": ref("Folder")}}}
+         "Shelf": {"type": "object", "properties": {"top": ref("Folder")}},
+         # COUNT: arrays with two or more item schemas (3.1 prefixItems, with and without items) referring to other models
+         "Pair": {"type": "object", "properties": {"both": {"type": "array", "prefixItems": [ref("Entry"), {"type": "integer"}], "items": ref("Item")},
+                                                   "solo": {"type": "array", "prefixItems": [ref("TreeNode"), ref("Shelf")]},
+                                                   "named": {"type": "object", "additionalProperties": {"type": "array", "prefixItems": [ref("State"), {"type": "string"}]}}}}}
     iobj = lambda **p: {"type": "object", "properties": p}  # noqa: E731
     ok = lambda sch: {"200": {"description": "ok", "content": {"application/json": {"schema": sch}}}}  # noqa: E731
     sort = lambda: {"name": "sort", "in": "query", "schema": {"type": "string", "enum": ["asc", "desc"]}}  # noqa: E731
@@ -107,6 +111,7 @@ def base_d():
          "/solo": {"get": {"operationId": "getSolo", "tags": ["solo"], "responses": ok(ref("Item"))}},
          "/tree": {"get": {"operationId": "getTree", "responses": ok(ref("TreeNode"))}},
          "/shelf": {"get": {"operationId": "getShelf", "responses": ok(ref("Shelf"))}},
+         "/pair": {"get": {"operationId": "getPair", "responses": ok(ref("Pair"))}},
          "/duo": {"post": {"operationId": "postDuo", "tags": ["duo", "extra"], "requestBody": {"content": {"application/json": {"schema": ref("Item")}}}, "responses": {"204": {"description": "n"}}}},
          # shared path-item parameters: inherited by one operation, re-declared (same name and location) by the others
          "/shared": {"parameters": [{"name": "q", "in": "query", "schema": {"type": "string"}}, {"name": "X-T", "in": "header", "schema": {"type": "string"}}],
